@@ -47,12 +47,19 @@ GuardCRLFVecs == GuardCRLF(SubSeq(Decs, 1, 4), (10485760 * 8 + 4) \div 5) \o Gua
 \* decoded results kept while further strings (of other lengths) are decoded
 ChainVecs == SeqMap(LAMBDA p : [op |-> "Chain", fn |-> p[2], kind |-> "textdec", cls |-> p[1] \o "." \o p[2],
                                 items |-> SeqMap(LAMBDA n : [pkg |-> p[1], fn |-> p[2], in |-> EncOf(p, Rnd(Seed, n, n + 40))], << 10, 3, 25, 10, 1, 64, 5, 32, 100, 7 >>)], Decs)
+\* ... and the same for line-wrapped text (CR LF after every k characters, which the decoders skip): wrapped and plain strings side by side
+RECURSIVE WrapEvery(_, _)
+WrapEvery(t, k) == IF Len(t) <= k THEN t \o << 13, 10 >> ELSE SubSeq(t, 1, k) \o << 13, 10 >> \o WrapEvery(SubSeq(t, k + 1, Len(t)), k)
+WrappedChainVecs == SeqMap(LAMBDA p : [op |-> "Chain", fn |-> p[2], kind |-> "textdec", cls |-> p[1] \o "." \o p[2] \o "/wrapped",
+                                items |-> SeqMap(LAMBDA n : [pkg |-> p[1], fn |-> p[2],
+                                                              in |-> IF n % 2 = 1 THEN EncOf(p, Rnd(Seed, n, n + 41)) ELSE WrapEvery(EncOf(p, Rnd(Seed, n, n + 41)), 8 + (n % 3) * 28)],
+                                                 << 10, 3, 24, 12, 1, 64, 5, 32, 100, 8, 50, 20 >>)], Decs)
 \* large inputs (around 1 MiB and just below the encode limit, every residue of the group size): round trip, output length, alphabet
 BigNs == << 1048575, 1048576, 1048577, 1048578, 1048579, 1048580, 1048581, 3145729, 10485757, 10485758, 10485759, 10485760 >>
 BigVecs == Cross2(<< << "b32", "EncodeToString", "DecodeString" >>, << "b32", "EncodeToStringNoPadding", "DecodeStringNoPadding" >>, << "b32", "EncodeToStringSafe", "DecodeStringSafe" >>,
                      << "b64", "EncodeToString", "DecodeString" >>, << "b64", "EncodeToStringSafe", "DecodeStringSafe" >> >>, BigNs,
                   LAMBDA p, n : [op |-> "TextBig", pkg |-> p[1], fn |-> p[2], dec |-> p[3], n |-> n])
-Vecs == BigVecs \o ChainVecs \o GuardCRLFVecs \o ChunkVecs \o EncVecs \o DecValid \o DecCross \o DecMal \o MutVecs \o GuardVecs
+Vecs == BigVecs \o ChainVecs \o WrappedChainVecs \o GuardCRLFVecs \o ChunkVecs \o EncVecs \o DecValid \o DecCross \o DecMal \o MutVecs \o GuardVecs
 VARIABLE done
 Init == done = FALSE
 Next == ~done /\ ndJsonSerialize(OutFile, Vecs) /\ PrintT(<< "GENERATED", Len(Vecs) >>) /\ done' = TRUE
